@@ -59,6 +59,10 @@ fn main() {
             }
         }
     }
+    if engine == "c19-child" {
+        // single threaded on purpose: the syscall-level fault injection counts per thread
+        std::process::exit(engines::dispatch(&engine, &cfg));
+    }
     install_panic_hook();
     watchdog_start(std::env::var("VH_CASE_LIMIT_S").ok().and_then(|x| x.parse().ok()).unwrap_or(90), std::env::var("VH_MEM_MB").ok().and_then(|x| x.parse().ok()).unwrap_or(3000));
     let stack_mb = engines::stack_mb(&engine);
